@@ -1573,6 +1573,10 @@ func (e *compiledFunctionLiteral) compile() (prg *Program, name unistring.String
 			if !s.argsInStash {
 				s.moveArgsToStash()
 			}
+			if firstForwardRef != -1 {
+				// enterFunc1 allocates no stack slots for this scope
+				b.inStash = true
+			}
 			if s.strict {
 				b.isConst = true
 			} else {
@@ -1580,7 +1584,9 @@ func (e *compiledFunctionLiteral) compile() (prg *Program, name unistring.String
 			}
 			pos := preambleLen - 2
 			delta += 2
-			if s.strict || hasPatterns || hasInits {
+			if firstForwardRef != -1 {
+				code[pos] = createArgsUnmappedStack
+			} else if s.strict || hasPatterns || hasInits {
 				code[pos] = createArgsUnmapped(paramsCount)
 			} else {
 				code[pos] = createArgsMapped(paramsCount)
